@@ -27,6 +27,8 @@ type AbstractType struct {
 	ListCons string // specfunc name cons(list, elem)
 	Opaque   bool   // values carry no tracked heap reachability
 	ZeroFn   string // specfunc/const name for zero value
+	SeqLen   string // uf giving the number of list elements (sequence view of an abstract list)
+	SeqAt    string // uf giving the i-th list element
 }
 
 func NewTypeMap(c *TermCtx) *TypeMap {
